@@ -152,6 +152,307 @@ theorem direct_predict_uses_last_window (V : Vals α) (R : Regressor α) (d : α
     hv.rect hv.wl_pos (by have := hv.long_enough; omega) hv.fh_pos hck hfp hp
   simp only [fittedFc, rows, tf, zf] at hpred
   simp only [run, hfit, hpred, rows, tf, zf, x]
-  rw [List.map_map, numbered_map_snd, List.map_map, List.map_map, numbered_map, zipWith_map_self]
-  simp [Function.comp_def, trainJob, applyEst]
+  simp only [List.map_map, numbered_map, Function.comp_def, trainJob, applyEst, zipWith_range_ignore,
+    zipWith_map_self, List.append_nil, Nat.zero_add]
+
+/-- **Multioutput strategy, end to end.**  A single clone is fitted on the lagged windows with one
+target column per requested step (`column j` = `y[r + wl + fh[j] - 1]`); at prediction time it is fed
+the last `wl` observed values once, and the forecast returned for step `fh[j]` is its `j`-th output. -/
+theorem multioutput_predict_uses_last_window (V : Vals α) (R : Regressor α) (d : α) (sci : Scitype) (wl : Nat)
+    (t0 : Int) (y : List α) (X Xp : Option (List (List α))) (nc : Nat) (fh : List Int) (hm : Int)
+    (fhPred : Option (List Int)) (hv : ValidFit y X nc wl fh hm) (hp : FiniteLastWindow V y wl)
+    (hfp : fhPred = none ∨ fhPred = some fh) :
+    let zf := ofLists d y X
+    let rows := trainRows zf y.length (nc + 1) wl hm.toNat (sci == .tabular)
+    let tt := trainTargets zf y.length wl hm.toNat (fh.map Int.toNat)
+    let x := lastInst zf y.length (nc + 1) wl (sci == .tabular)
+    run V R .multioutput sci (.int wl) t0 y X (some fh) .no fhPred Xp =
+      ([Call.fit rows (.mat tt), Call.predict 0 x ((List.range fh.length).map fun j => R.trainM rows tt x j)],
+       .ok (List.zipWith (fun h j => (t0 + y.length - 1 + h, R.trainM rows tt x j)) fh (List.range fh.length))) := by
+  intro zf rows tt x
+  have hne : fh ≠ [] := by intro h; have := hv.fh_last; simp [h] at this
+  have hy : y ≠ [] := by
+    intro h; have h1 := hv.long_enough; have h2 := hv.wl_pos; rw [h] at h1; simp at h1; omega
+  have hck := checkFh_sorted fh hv.fh_sorted hne
+  have hle := le_last_of_sorted fh hm hv.fh_sorted hv.fh_last
+  have hset : setFh (requiredFh .multioutput) false none (some fh) = .ok (some fh) := by
+    simp [setFh, requiredFh, hck, bind, Except.bind]
+  have hjobs := fitJobs_multioutput V d y X nc wl (some wl) fh sci hm hv.rect hv.wl_pos hv.fh_pos hle hv.fh_last hv.long_enough
+  have hfit := fit_ok V R .multioutput sci wl t0 y X (some fh) (some fh) _ hy hv.wl_pos hset hjobs
+  have hpred := predict_multioutput V d sci wl t0 y X Xp nc fh fhPred 0 (R.trainM rows tt) [] 1
+    hv.rect hv.wl_pos (by have := hv.long_enough; omega) hv.fh_pos hck hfp hp
+  simp only [fittedFc, rows, tt, zf] at hpred
+  simp only [run, hfit, numbered, trainJob, List.map_cons, List.map_nil, List.length_cons, List.length_nil,
+    List.range_one, List.zipWith_cons_cons, List.zipWith_nil_left, Nat.zero_add, hpred, rows, tt, zf, x]
+  simp [List.zipWith_map_right]
+
+/-- every requested step of the recursive strategy has its forecast among the `hmax` recursive outputs -/
+theorem recForecast_length (f : List (List α) → α) (zf : Nat → Nat → α) (n nv wl : Nat) (flat : Bool) (d : α)
+    (m : Nat) : (recForecast f zf n nv wl flat d m).length = m := by
+  unfold recForecast
+  suffices h : ∀ sofar, (recTraceFrom f zf n nv wl flat d sofar m).length = m by simp [h]
+  induction m with
+  | zero => intro sofar; simp [recTraceFrom]
+  | succ m ih => intro sofar; simp [recTraceFrom, ih]
+
+/-- **Recursive strategy, end to end.**  A single clone is fitted on the lagged windows with the next
+observation as target.  At prediction time it is called once per step `1 … hmax`; at step `i` it is fed the
+window ending at the newest value of (observed series ++ its own earlier outputs) — for exogenous columns:
+(observed rows ++ the future rows passed to predict) — laid out like a training row, and the forecast
+returned for a requested step `h` (contiguous or gapped horizon) is the `h`-th output. -/
+theorem recursive_feedback_eq_spec (V : Vals α) (R : Regressor α) (d : α) (sci : Scitype) (wl : Nat)
+    (t0 : Int) (y : List α) (X Xp : Option (List (List α))) (nc : Nat) (fh : List Int) (hm : Int)
+    (fhFit fhPred : Option (List Int))
+    (hr : Rect y X nc) (hwl : 1 ≤ wl) (hlen : wl + 1 ≤ y.length)
+    (hpos : ∀ h ∈ fh, 1 ≤ h) (hs : fh.Pairwise (· < ·)) (hlast : fh.getLast? = some hm)
+    (hf : FutureRect X Xp nc hm.toNat) (hp : FiniteLastWindow V y wl)
+    (hF : fhFit = none ∨ fhFit = some fh) (hP : fhPred = none ∨ fhPred = some fh)
+    (hFP : ¬ (fhFit = none ∧ fhPred = none)) :
+    let zf := ofLists d y X
+    let rows := trainRows zf y.length (nc + 1) wl 1 (sci == .tabular)
+    let f := R.train rows (targetsFor zf y.length wl 1 1)
+    let zfF := ofLists d y (fullX X Xp)
+    run V R .recursive sci (.int wl) t0 y X fhFit .no fhPred Xp =
+      (Call.fit rows (.vec (targetsFor zf y.length wl 1 1)) ::
+         (recTraceFrom f zfF y.length (nc + 1) wl (sci == .tabular) d [] hm.toNat).map
+           (fun (t : Inst α × α) => Call.predict 0 t.1 [t.2]),
+       .ok (fh.map fun h => (t0 + y.length - 1 + h,
+         (recForecast f zfF y.length (nc + 1) wl (sci == .tabular) d hm.toNat).getD (h - 1).toNat V.zero))) := by
+  intro zf rows f zfF
+  have hne : fh ≠ [] := by intro h; simp [h] at hlast
+  have hy : y ≠ [] := by intro h; rw [h] at hlen; simp at hlen
+  have hck := checkFh_sorted fh hs hne
+  obtain ⟨stored, hset1, hset2⟩ : ∃ stored, setFh (requiredFh .recursive) false none fhFit = .ok stored ∧
+      setFh false true stored fhPred = .ok (some fh) := by
+    rcases hF with h | h <;> rcases hP with h' | h' <;> subst h <;> subst h'
+    · exact absurd ⟨rfl, rfl⟩ hFP
+    · exact ⟨none, by simp [setFh, requiredFh], by simp [setFh, hck, bind, Except.bind]⟩
+    · exact ⟨some fh, by simp [setFh, requiredFh, hck, bind, Except.bind], by simp [setFh]⟩
+    · exact ⟨some fh, by simp [setFh, requiredFh, hck, bind, Except.bind], by simp [setFh, hck, bind, Except.bind]⟩
+  have hjobs := fitJobs_recursive V d y X nc wl (.int wl) stored sci hr hwl hlen
+  have hfit := fit_ok V R .recursive sci wl t0 y X fhFit stored _ hy hwl hset1 hjobs
+  have hpred := predict_recursive V d sci wl t0 y X Xp nc stored fh fhPred hm 0 (.single f) [] 1
+    hr hf hwl (by omega) hpos hlast hset2 hp
+  simp only [fittedFc, f, rows, zf, applyEst_single] at hpred
+  simp only [run, hfit, numbered, trainJob, List.map_cons, List.map_nil, List.length_cons, List.length_nil,
+    List.range_one, List.zipWith_cons_cons, List.zipWith_nil_left, Nat.zero_add, hpred, f, rows, zf, zfF,
+    recForecast]
+  simp [zipWith_map_self]
+
+/-- **DirRec strategy, end to end.**  The clone for the `i`-th requested step is fitted on rows
+"lagged window ++ the true values at the earlier requested steps" with the step's own observation as
+target; at prediction time clone `i` is fed "last window ++ the forecasts of the earlier requested steps" —
+the same row shape (`dirrecRow`) with each earlier value replaced by its forecast — and the forecast
+returned for step `fh[i]` is clone `i`'s output. -/
+theorem dirrec_feedback_matches_training_layout (V : Vals α) (R : Regressor α) (d : α) (sci : Scitype)
+    (wl : Nat) (t0 : Int) (y : List α) (fh : List Int) (hm : Int) (fhPred : Option (List Int))
+    (hv : ValidFit y none 0 wl fh hm) (hp : FiniteLastWindow V y wl)
+    (hfp : fhPred = none ∨ fhPred = some fh) :
+    let zf := ofLists d y none
+    let rowsFor := fun i => dirrecTrainRows zf y.length wl hm.toNat (fh.map Int.toNat) i (sci == .tabular)
+    let tf := fun i => targetsFor zf y.length wl hm.toNat (fh.getD i 0).toNat
+    let fs := (List.range fh.length).map fun i => R.train (rowsFor i) (tf i)
+    let tr := dirrecTrace (sci == .tabular) (y.drop (y.length - wl)) fs []
+    run V R .dirrec sci (.int wl) t0 y none (some fh) .no fhPred none =
+      ((List.range fh.length).map (fun i => Call.fit (rowsFor i) (.vec (tf i))) ++
+         List.zipWith (fun i (t : Inst α × α) => Call.predict i t.1 [t.2]) (List.range fh.length) tr,
+       .ok (List.zipWith (fun h (t : Inst α × α) => (t0 + y.length - 1 + h, t.2)) fh tr)) := by
+  intro zf rowsFor tf fs tr
+  have hne : fh ≠ [] := by intro h; have := hv.fh_last; simp [h] at this
+  have hy : y ≠ [] := by
+    intro h; have h1 := hv.long_enough; have h2 := hv.wl_pos; rw [h] at h1; simp at h1; omega
+  have hck := checkFh_sorted fh hv.fh_sorted hne
+  have hle := le_last_of_sorted fh hm hv.fh_sorted hv.fh_last
+  have hset : setFh (requiredFh .dirrec) false none (some fh) = .ok (some fh) := by
+    simp [setFh, requiredFh, hck, bind, Except.bind]
+  have hjobs := fitJobs_dirrec V d y wl (some wl) fh sci hm hv.wl_pos hv.fh_pos hle hv.fh_last hv.long_enough
+  have hfit := fit_ok V R .dirrec sci wl t0 y none (some fh) (some fh) _ hy hv.wl_pos hset hjobs
+  have hpred := predict_dirrec V sci wl t0 y fh fhPred
+    (numbered 0 (((List.range fh.length).map fun i => (rowsFor i, Target.vec (tf i))).map (trainJob R)))
+    ((List.range fh.length).map fun i => (rowsFor i, Target.vec (tf i))).length
+    hv.wl_pos (by have := hv.long_enough; omega) hv.fh_pos (by simp [numbered_length]) hck hfp hp
+  simp only [fittedFc, rowsFor, tf, zf] at hpred
+  simp only [run, hfit, hpred, rowsFor, tf, zf, fs, tr]
+  rw [numbered_zipWith_fst 0 _ _ (fun i (t : Inst α × α) => Call.predict i t.1 [t.2])]
+  simp only [List.map_map, numbered_map, Function.comp_def, trainJob, applyEst_single, zipWith_range_range,
+    List.append_nil, Nat.zero_add, List.length_map, List.length_range, List.zipWith_map_right]
+
+/-- **The forecast returned for step `h` is the regressor output for step `h`** (contiguous or gapped
+horizon), read off the four end-to-end theorems position by position: the `j`-th returned pair carries
+the label `cutoff + fh[j]` and
+* direct: the output of the clone trained on the step-`fh[j]` targets,
+* multioutput: output number `j` of the clone whose target column `j` holds the step-`fh[j]` targets,
+* recursive: the `fh[j]`-th output of the feedback chain (which has exactly `hmax` outputs),
+* dirrec: the output of clone `j` in the dirrec trace. -/
+theorem returned_step_h_is_output_h (V : Vals α) (R : Regressor α) (d : α) (sci : Scitype) (wl : Nat)
+    (t0 : Int) (y : List α) (X Xp : Option (List (List α))) (nc : Nat) (fh : List Int) (hm : Int)
+    (hv : ValidFit y X nc wl fh hm) (hp : FiniteLastWindow V y wl) (j : Nat) (hj : j < fh.length) :
+    let zf := ofLists d y X
+    let rows := trainRows zf y.length (nc + 1) wl hm.toNat (sci == .tabular)
+    let x := lastInst zf y.length (nc + 1) wl (sci == .tabular)
+    let cutoff := t0 + (y.length : Int) - 1
+    -- direct
+    ((run V R .direct sci (.int wl) t0 y X (some fh) .no none Xp).2.toOption.bind (·[j]?) =
+        some (cutoff + fh[j], R.train rows (targetsFor zf y.length wl hm.toNat fh[j].toNat) x)) ∧
+    -- multioutput
+    ((run V R .multioutput sci (.int wl) t0 y X (some fh) .no none Xp).2.toOption.bind (·[j]?) =
+        some (cutoff + fh[j],
+          R.trainM rows (trainTargets zf y.length wl hm.toNat (fh.map Int.toNat)) x j)) ∧
+    -- recursive (needs the future exogenous rows when X is given)
+    (FutureRect X Xp nc hm.toNat →
+      let out := recForecast (R.train (trainRows zf y.length (nc + 1) wl 1 (sci == .tabular)) (targetsFor zf y.length wl 1 1))
+        (ofLists d y (fullX X Xp)) y.length (nc + 1) wl (sci == .tabular) d hm.toNat
+      (fh[j] - 1).toNat < out.length ∧
+      (run V R .recursive sci (.int wl) t0 y X (some fh) .no none Xp).2.toOption.bind (·[j]?) =
+        some (cutoff + fh[j], out.getD (fh[j] - 1).toNat V.zero)) ∧
+    -- dirrec (no exogenous data)
+    (X = none → Xp = none →
+      let zf0 := ofLists d y none
+      let fs := (List.range fh.length).map fun i =>
+        R.train (dirrecTrainRows zf0 y.length wl hm.toNat (fh.map Int.toNat) i (sci == .tabular))
+          (targetsFor zf0 y.length wl hm.toNat (fh.getD i 0).toNat)
+      let tr := dirrecTrace (sci == .tabular) (y.drop (y.length - wl)) fs []
+      (run V R .dirrec sci (.int wl) t0 y X (some fh) .no none Xp).2.toOption.bind (·[j]?) =
+        (tr[j]?).map fun t => (cutoff + fh[j], t.2)) := by
+  intro zf rows x cutoff
+  have hle := le_last_of_sorted fh hm hv.fh_sorted hv.fh_last
+  have hfj := hv.fh_pos fh[j] (List.getElem_mem hj)
+  have hfj' := hle fh[j] (List.getElem_mem hj)
+  refine ⟨?_, ?_, ?_, ?_⟩
+  · rw [direct_predict_uses_last_window V R d sci wl t0 y X Xp nc fh hm none hv hp (Or.inl rfl)]
+    simp [Except.toOption, hj, cutoff, rows, x, zf]
+  · rw [multioutput_predict_uses_last_window V R d sci wl t0 y X Xp nc fh hm none hv hp (Or.inl rfl)]
+    simp [Except.toOption, hj, cutoff, rows, x, zf]
+  · intro hf out
+    have hlen : wl + 1 ≤ y.length := by have := hv.long_enough; have := hv.fh_pos hm (List.mem_of_getLast? hv.fh_last); omega
+    refine ⟨by simp only [out, recForecast_length]; omega, ?_⟩
+    rw [recursive_feedback_eq_spec V R d sci wl t0 y X Xp nc fh hm (some fh) none hv.rect hv.wl_pos hlen
+      hv.fh_pos hv.fh_sorted hv.fh_last hf hp (Or.inr rfl) (Or.inl rfl) (by simp)]
+    simp [Except.toOption, hj, cutoff, out, zf]
+  · intro hX hXp zf0 fs tr
+    subst hX; subst hXp
+    have hnc : nc = 0 := by have := hv.rect; simpa [Rect] using this
+    subst hnc
+    rw [dirrec_feedback_matches_training_layout V R d sci wl t0 y fh hm none hv hp (Or.inl rfl)]
+    simp only [Except.toOption, Option.bind_some, List.getElem?_zipWith, hj, List.getElem?_eq_getElem, tr, fs, zf0, cutoff]
+    cases h : (dirrecTrace (sci == Scitype.tabular) (List.drop (y.length - wl) y)
+        (List.map (fun i => R.train (dirrecTrainRows (ofLists d y none) y.length wl hm.toNat (List.map Int.toNat fh) i (sci == Scitype.tabular))
+          (targetsFor (ofLists d y none) y.length wl hm.toNat (fh.getD i 0).toNat)) (List.range fh.length)) [])[j]? <;> simp
+
+/-- … and at fit level: every strategy refuses (ValueError, before any regressor call) a series too
+short to yield one training row. -/
+theorem fit_rejects_short_series (V : Vals α) (R : Regressor α) (s : Strategy) (sci : Scitype) (wl : Nat)
+    (t0 : Int) (y : List α) (X Xp : Option (List (List α))) (nc : Nat) (fh : List Int) (hm : Int)
+    (fhPred : Option (List Int)) (upd : Upd α)
+    (hr : Rect y X nc) (hwl : 1 ≤ wl) (hpos : ∀ h ∈ fh, 1 ≤ h) (hs : fh.Pairwise (· < ·))
+    (hlast : fh.getLast? = some hm) (hX : s = .dirrec → X = none)
+    (hshort : y.length < wl + (if s = .recursive then 1 else hm.toNat)) :
+    run V R s sci (.int wl) t0 y X (some fh) upd fhPred Xp = ([], .error (.value, .fit)) := by
+  have hne : fh ≠ [] := by intro h; simp [h] at hlast
+  have hck := checkFh_sorted fh hs hne
+  have hwl' : ¬ ((wl : Int) < 1) := by omega
+  have hset : ∀ req, setFh req false none (some fh) = .ok (some fh) := by
+    intro req; cases req <;> simp [setFh, hck, bind, Except.bind]
+  have hjobs : fitJobs V s sci (.int wl) (some wl) y X (some fh) = .error .value := by
+    cases s with
+    | direct =>
+      simp only [fitJobs, allOut_of_pos fh hpos, Bool.not_true, Bool.false_eq_true, if_false,
+        swt_short V y X nc wl fh sci hm hr hwl hpos hlast (by simpa using hshort), bind, Except.bind]
+    | multioutput =>
+      simp only [fitJobs, allOut_of_pos fh hpos, Bool.not_true, Bool.false_eq_true, if_false,
+        swt_short V y X nc wl fh sci hm hr hwl hpos hlast (by simpa using hshort), bind, Except.bind]
+    | recursive =>
+      have := swt_short V y X nc wl [1] sci 1 hr hwl (by simp) (by simp) (by simpa using hshort)
+      simp only [fitJobs, wlRawOf, this, bind, Except.bind]
+    | dirrec =>
+      have hXn := hX rfl
+      subst hXn
+      simp only [fitJobs, allOut_of_pos fh hpos, Bool.not_true, Bool.false_eq_true, if_false,
+        swt_short V y none nc wl fh sci hm hr hwl hpos hlast (by simpa using hshort), bind, Except.bind]
+  unfold run fit
+  cases hy : y.isEmpty
+  · simp only [Bool.false_eq_true, if_false, hset, checkWindowLength, hwl', Int.toNat_natCast, hjobs,
+      bind, Except.bind]
+  · simp [bind, Except.bind]
+
+/-- **After `update` (no refit) the window is taken from everything observed so far.**  A batch that
+continues the series moves the cutoff to its last label and leaves the fitted clones untouched, so the
+four prediction theorems apply verbatim to the extended series `y ++ yNew` (`X ++ XNew`): the regressors
+are fed the last `wl` *observed* values, not the last `wl` training values. -/
+theorem update_extends_observed_series (V : Vals α) (R : Regressor α) (s : Strategy) (sci : Scitype) (wl : Nat)
+    (t0 : Int) (y yNew : List α) (X XNew : Option (List (List α))) (stored : Option (List Int))
+    (ests : List (Nat × Est α)) (nfit : Nat) (hne : yNew ≠ []) :
+    update V R (fittedFc s sci wl t0 y X stored ests nfit) yNew XNew false =
+      .ok (fittedFc s sci wl t0 (y ++ yNew)
+            (match X, XNew with
+              | some a, some b => some (a ++ b)
+              | a, _ => a) stored ests nfit, []) := by
+  have h : yNew.isEmpty = false := by cases yNew <;> simp_all
+  unfold update fittedFc
+  simp only [h, Bool.false_and, Bool.false_eq_true, if_false]
+  have e : t0 + (y.length : Int) - 1 + (yNew.length : Int) = t0 + ((y ++ yNew).length : Int) - 1 := by
+    simp only [List.length_append]; omega
+  rw [e]
+  cases X <;> cases XNew <;> rfl
+
+/-- **`update` with refit is `fit` on everything observed so far**: the refit hands the regressor the
+lagged windows of the extended series (the fit theorems then apply to `y ++ yNew`). -/
+theorem update_refit_eq_fit (V : Vals α) (R : Regressor α) (s : Strategy) (sci : Scitype) (wl : Nat)
+    (t0 : Int) (y yNew : List α) (X XNew : Option (List (List α))) (fh : List Int)
+    (ests : List (Nat × Est α)) (nfit : Nat) (hne : yNew ≠ []) :
+    update V R (fittedFc s sci wl t0 y X (some fh) ests nfit) yNew XNew true =
+      fit V R (fittedFc s sci wl t0 (y ++ yNew)
+            (match X, XNew with
+              | some a, some b => some (a ++ b)
+              | a, _ => a) (some fh) ests nfit) t0 (y ++ yNew)
+            (match X, XNew with
+              | some a, some b => some (a ++ b)
+              | a, _ => a) (some fh) := by
+  have h : yNew.isEmpty = false := by cases yNew <;> simp_all
+  unfold update fittedFc
+  simp only [h, Bool.false_and, Bool.false_eq_true, if_false, if_true]
+  have e : t0 + (y.length : Int) - 1 + (yNew.length : Int) = t0 + ((y ++ yNew).length : Int) - 1 := by
+    simp only [List.length_append]; omega
+  rw [e]
+  cases X <;> cases XNew <;> rfl
+
+/-- **The order in which the user lists the steps is irrelevant**: `check_fh` stores the horizon
+sorted, so every statement above (made for the stored, increasing order) covers any permutation. -/
+theorem horizon_order_irrelevant (vs : List Int) : checkFh vs = checkFh (sortInts vs) := by
+  have hperm := Lem.sortInts_perm vs
+  have hnd : (sortInts vs).Nodup ↔ vs.Nodup := hperm.nodup_iff
+  have hs : sortInts (sortInts vs) = sortInts vs := Lem.sortInts_of_sorted _ (Lem.sortInts_sorted vs)
+  by_cases h : vs.Nodup
+  · have h' := hnd.mpr h
+    simp [checkFh, FH.checkFh, FH.mk, FH.checkValues, h, h', Except.map, bind, Except.bind, hs]
+  · have h' : ¬ (sortInts vs).Nodup := fun hh => h (hnd.mp hh)
+    simp [checkFh, FH.checkFh, FH.mk, FH.checkValues, h, h', Except.map, bind, Except.bind]
 end strategies
+
+/-! ### non-vacuity: concrete inputs meeting the hypotheses, and the model evaluated on them -/
+
+example : ValidFit [10, 11, 12, 13, 14, 15, 16] (none : Option (List (List Int))) 0 2 [1, 3] 3 :=
+  ⟨by simp [Rect], by decide, by decide, by decide, rfl, by decide⟩
+example : ValidFit [10, 11, 12, 13, 14] (some [[100, 200], [101, 201], [102, 202], [103, 203], [104, 204]]) 2 2 [2] 2 :=
+  ⟨by simp [Rect], by decide, by decide, by decide, rfl, by decide⟩
+example : FutureRect (some [[100], [101]]) (some [[7], [8], [9]]) 1 3 := by simp [FutureRect]
+
+/-- integer values; NaN is modelled by a sentinel the test recognises -/
+def exVals : Vals Int := { zero := 0, nan := -1, bad := fun v => v == -1 }
+example : FiniteLastWindow exVals [10, 11, 12, 13, 14, 15, 16] 2 := by decide
+
+/-- a toy regressor: weighted sum of the instance plus the sum of its training targets -/
+def exReg : Regressor Int where
+  train _ y := fun inst => (inst.flatten.zipIdx.map fun (p : Int × Nat) => p.1 * ((p.2 : Int) + 1)).sum + y.sum
+  trainM _ Y := fun inst j => inst.flatten.sum + (Y.map fun r => r.getD j 0).sum
+
+-- the transform on upstream's explicit example shape: rows are the lagged windows, targets h steps later
+example : swt exVals [10, 11, 12, 13, 14, 15, 16] (.int 2) [1, 3] none .tabular =
+    .ok ([[12, 14], [13, 15], [14, 16]], [[[10, 11]], [[11, 12]], [[12, 13]]]) := by rfl
+example : swt exVals [10, 11, 12, 13, 14] (.int 2) [2]
+      (some [[100, 200], [101, 201], [102, 202], [103, 203], [104, 204]]) .panel =
+    .ok ([[13], [14]], [[[10, 11], [100, 101], [200, 201]], [[11, 12], [101, 102], [201, 202]]]) := by rfl
+example : swt exVals [10, 11, 12] (.int 2) [2] none .tabular = .error .value := by rfl
+-- the recursive chain feeds its own outputs back (gapped horizon [1,3], three regressor calls)
+example : (run exVals exReg .recursive .tabular (.int 2) 5 [10, 11, 12, 13] none (some [1, 3]) .no none none).2 =
+    .ok [(9, 63), (11, 416)] := by rfl
